@@ -212,6 +212,7 @@ def parse_callee(text):
         if k is not None:
             out['qself'] = inner[:k].strip()
             out['trait'] = strip_generics(inner[k + 4:].strip())
+            out['trait_raw'] = inner[k + 4:].strip()
         else:
             out['qself'] = inner.strip()
         rest = strip_generics(rest)
@@ -449,6 +450,18 @@ class Interp:
                 return self.eval_const(txt)
         cs = self.dump.consts
         fn = cs.get(flat)
+        if fn is None and 'promoted[' in flat:
+            segs = flat.split('::')
+            cands = [f for name, f in cs.items() if name.split('::')[-2:] == segs[-2:]]
+            if len(cands) > 1:
+                c2 = [f for f in cands if any(sg in f.name.split('::')[0:2] or ('/' + sg + '.rs') in f.name for sg in segs[:-2])]
+                cands = c2 or cands
+            if len(cands) > 1:
+                # closures: promoted[k] in X::{closure#0}: compare the full tail after the impl marker
+                tail = '::'.join(segs[-3:])
+                c3 = [f for f in cands if f.name.endswith(tail)]
+                cands = c3 or cands
+            fn = cands[0] if cands else None
         if fn is None:
             segs = flat.split('::')
             for name, f in cs.items():
@@ -801,6 +814,12 @@ class Interp:
                 v = self.eval_operand(frame, term.args[0])
                 bb = self.do_switch(v, term.targets)
             elif k == 'drop':
+                try:
+                    dv = self.read_place(frame, term.args[0])
+                except Exception:
+                    dv = None
+                if dv is not None and hasattr(dv, 'on_drop'):
+                    dv.on_drop(self)
                 bb = term.targets['return']
             elif k == 'assert':
                 op, neg, msg = term.args
@@ -873,6 +892,17 @@ class Interp:
                 return r
         # 2. MIR of the crate
         fn = self.index.resolve(pc, args)
+        if fn is None and pc.get('trait') and pc['trait'].split('::')[-1] == 'Into' and pc['method'] == 'into':
+            # blanket Into: `<X as Into<Y>>::into` is `<Y as From<X>>::from`
+            raw = pc.get('trait_raw', '')
+            i = raw.find('<')
+            if i >= 0:
+                tgt = last_type_name(raw[i + 1:match_close(raw, i)])
+                src_ty = last_type_name(pc['qself'])
+                c = [f for f in self.index.methods.get((tgt, 'From', 'from'), [])
+                     if last_type_name(f.parse().params[0][1]) == src_ty]
+                if c:
+                    fn = c[0]
         if fn is not None:
             r = yield from self.call_fn(fn, args)
             return r
